@@ -231,7 +231,7 @@ fn c14_simple_frame_encode_layout() {
     kani::cover!(written == 3);
 }
 
-// vp: props=C14; tag=C14.frame.data; kind=complete; tier=quick
+// vp: props=C14,C01; tag=C14.frame.data; kind=complete; tier=quick
 // DATA: type 0x0, length == payload.remaining() (not the first chunk's length), for every payload length
 #[kani::proof]
 #[kani::unwind(25)]
